@@ -134,7 +134,7 @@ class C02(Cross):
 class C03(Cross):
     pid = "C03"
     title = "termination"
-    thm_modules = ["PeliteModel.Thm.C03", "PeliteModel.Thm.C03Fmt", "PeliteModel.Thm.C03WFmt", "PeliteModel.Thm.C13WFmt"]
+    thm_modules = ["PeliteModel.Thm.C03", "PeliteModel.Thm.C03Fmt", "PeliteModel.Thm.C03WFmt", "PeliteModel.Thm.C13WFmt", "PeliteModel.Thm.C03Scan"]
 
     def judge(self, op, impl, model, spec):
         r = Cross.judge(self, op, impl, model, spec)
